@@ -185,7 +185,7 @@ def gen_program(r, max_depth=4, nfuncs=None, allow_while_continue=False):
         for (name, nargs, last), slot in zip(pending, slots):
             if slot == i:
                 args = [f'p{j}' for j in range(nargs)]
-                gf = Gen(r, [f for f in funcs], max_depth, allow_while_continue)
+                gf = Gen(r, funcs[funcs.index((name, nargs, last)) + 1:], max_depth, allow_while_continue)     # only later functions: no recursion
                 gf.counter = g.counter + 100 * (1 + funcs.index((name, nargs, last)))
                 body = gf.body(1, None, True, r.randint(1, 3))
                 # recursion guard: functions only call functions with a larger index or themselves under a depth counter
